@@ -29,42 +29,19 @@ def HwOk (l : CLog) : Prop := l.hw = -1 ∨ ∃ r ∈ l.abs, r.offset = l.hw
 
 /-! ### Position resolution -/
 
-/-- FINDING (`start-timestamp-tie-across-segments`): as stated for every log with non-decreasing
-timestamps — start timestamp: the resolved offset splits the log exactly at the timestamp — the
-retained messages at or after it are those with `ts ≥ t` — and the lookup never fails. -/
-def start_timestamp_range_asStated : Prop :=
-  ∀ (l : CLog) (t : Int), InvC l → TsMono l →
-    ∃ s, earliestAfterTs l t = .ok s ∧ ∀ r ∈ l.abs, (s ≤ r.offset ↔ t ≤ r.ts)
-
-/-- It is false: the segment search picks the LAST segment whose first timestamp is `≤ t`
-(`entry.Timestamp > timestamp`), so when that segment starts with a message stamped exactly `t`
-and an earlier segment also holds a message stamped `t`, the earlier one is skipped
-(two segments `[(0, ts 5)]`, `[(1, ts 5)]`, `t = 5`: resolves to offset 1). -/
-theorem start_timestamp_range_asStated_false : ¬ start_timestamp_range_asStated := by
-  intro hA
-  obtain ⟨l, t, h, hm, hn⟩ := Witness.start_ts_witness
-  exact hn (hA l t h hm)
-
-/-- It holds when no segment starts with a message stamped `t` that is preceded by
-another message stamped `t` (ties elsewhere, an empty last segment and the empty log are fine). -/
-theorem start_timestamp_range_partial (l : CLog) (t : Int) (h : InvC l) (hm : TsMono l)
-    (htie : ∀ s ∈ l.segs, ∀ r0, s.recs.head? = some r0 → r0.ts = t →
-      ∀ r ∈ l.abs, r.ts = t → r0.offset ≤ r.offset) :
+/-- Start timestamp: the resolved offset splits the log exactly at the timestamp — the retained
+messages at or after it are those with `ts ≥ t` — and the lookup never fails. -/
+theorem start_timestamp_range (l : CLog) (t : Int) (h : InvC l) (hm : TsMono l) :
     ∃ s, earliestAfterTs l t = .ok s ∧ ∀ r ∈ l.abs, (s ≤ r.offset ↔ t ≤ r.ts) :=
-  earliestAfterTs_spec l t h hm htie
+  earliestAfterTs_spec l t h hm
 
-/-- … and that hypothesis is exactly what is needed. -/
-theorem start_timestamp_range_iff (l : CLog) (t : Int) (h : InvC l) (hm : TsMono l) :
-    (∃ s, earliestAfterTs l t = .ok s ∧ ∀ r ∈ l.abs, (s ≤ r.offset ↔ t ≤ r.ts)) ↔
-    (∀ s ∈ l.segs, ∀ r0, s.recs.head? = some r0 → r0.ts = t →
-      ∀ r ∈ l.abs, r.ts = t → r0.offset ≤ r.offset) :=
-  ⟨earliestAfterTs_tie_needed l t h hm, earliestAfterTs_spec l t h hm⟩
-
-/-- In particular it holds for every `t` when timestamps strictly increase along the log. -/
-theorem start_timestamp_range_strict (l : CLog) (t : Int) (h : InvC l)
-    (hstrict : l.abs.Pairwise (fun a b => a.ts < b.ts)) :
-    ∃ s, earliestAfterTs l t = .ok s ∧ ∀ r ∈ l.abs, (s ≤ r.offset ↔ t ≤ r.ts) :=
-  earliestAfterTs_spec l t h (hstrict.imp (fun hab => Int.le_of_lt hab)) (tie_of_strict hstrict t)
+/-- FIXED FINDING (`start-timestamp-tie-across-segments`): the lookup as it was before the fix —
+segment search for the first base timestamp `> t` instead of `>= t` — skipped a message stamped
+exactly `t` at the end of a segment when the next segment starts with the same timestamp
+(two segments `[(0, ts 5)]`, `[(1, ts 5)]`, `t = 5`: resolved to offset 1). -/
+theorem old_lookup_misses_tie : ∃ l t, InvC l ∧ TsMono l ∧
+    ∃ s, earliestAfterTsExclusive l t = .ok s ∧ ∃ r ∈ l.abs, t ≤ r.ts ∧ r.offset < s :=
+  Witness.old_lookup_witness
 
 /-- Stop timestamp: when some retained message has `ts ≤ t`, the resolved offset is the offset
 of a retained message with `ts ≤ t` and the messages at or before it are exactly those. -/
